@@ -190,8 +190,27 @@ void DiffVisitor::bvisit(const Basic &self)
     }
 
 DIFF0(UnivariateSeries)
-DIFF0(Max)
-DIFF0(Min)
+
+// Max/Min: zero when no argument depends on x, else an unevaluated Derivative
+#define DIFF_MINMAX(CLASS)                                                     \
+    void DiffVisitor::bvisit(const CLASS &self)                                \
+    {                                                                          \
+        bool depends = false;                                                  \
+        for (const auto &a : self.get_args()) {                                \
+            apply(a);                                                          \
+            if (neq(*result_, *zero)) {                                        \
+                depends = true;                                                \
+            }                                                                  \
+        }                                                                      \
+        if (depends) {                                                         \
+            result_ = Derivative::create(self.rcp_from_this(), {x});           \
+        } else {                                                               \
+            result_ = zero;                                                    \
+        }                                                                      \
+    }
+
+DIFF_MINMAX(Max)
+DIFF_MINMAX(Min)
 #endif
 
 void DiffVisitor::bvisit(const Number &self)
@@ -248,7 +267,10 @@ void DiffVisitor::bvisit(const PolyGamma &self)
 }
 void DiffVisitor::bvisit(const UnevaluatedExpr &self)
 {
-    result_ = Derivative::create(self.rcp_from_this(), {x});
+    apply(self.get_arg());
+    if (neq(*result_, *zero)) {
+        result_ = Derivative::create(self.rcp_from_this(), {x});
+    }
 }
 void DiffVisitor::bvisit(const TwoArgFunction &self)
 {
@@ -771,11 +793,19 @@ void DiffVisitor::bvisit(const GaloisField &self)
 void DiffVisitor::bvisit(const Piecewise &self)
 {
     PiecewiseVec v = self.get_vec();
+    bool depends = false;
     for (auto &p : v) {
         apply(p.first);
         p.first = result_;
+        if (neq(*result_, *zero)) {
+            depends = true;
+        }
     }
-    result_ = piecewise(std::move(v));
+    if (depends) {
+        result_ = piecewise(std::move(v));
+    } else {
+        result_ = zero;
+    }
 }
 
 const RCP<const Basic> &DiffVisitor::apply(const Basic &b)
